@@ -469,6 +469,16 @@ func (e *Env) EngineSpins(what string) {
 	e.emergency(e.PropID+"/engine-spins", what)
 }
 
+// EngineBlockedOnLock is called by the watchdog when an engine goroutine has been waiting for one of the engine's
+// own (uninstrumented) mutexes for the whole watchdog period: whoever holds it never lets go, the run cannot
+// proceed on simulated time. A finding for the properties that promise liveness, like EngineSpins.
+func (e *Env) EngineBlockedOnLock(what string) {
+	if !livenessProps[e.PropID] {
+		return
+	}
+	e.emergency(e.PropID+"/engine-blocked-on-lock", what)
+}
+
 func (e *Env) emergency(fp, what string) {
 	buf := make([]byte, 1<<18)
 	n := runtime.Stack(buf, true)
